@@ -326,7 +326,8 @@ def file_cases(tier, seed):
     out = []
     chunks = (500, 777, 1000, 3000, 10000)
     for fam in ("NP1", "NP2"):
-        for ns in ((2400,) if tier == "quick" else (2400, 3001)):
+        # lengths whose remainder modulo the chunk sizes falls below / inside / above the spike-window margins (86, 128)
+        for ns in ((2400, 2100, 2128, 2587) if tier == "quick" else (2400, 2100, 2090, 2128, 2129, 2587, 2086, 2087, 3001, 3100)):
             for max_wf in (2, 5, 1000):
                 out.append((fam, ns, max_wf, list(chunks)))
     return out
@@ -342,7 +343,17 @@ def file_check(case):
     ntr = 0
     ref_files = None
     for chunk in chunks:
-        nchunks = int(np.ceil(ns / chunk))
+        # the number of chunk tasks is taken from a first, natural-order execution (not recomputed here)
+        out = os.path.join(d, "out")
+        try:
+            sm0 = _run_extract(fbin, out, spikes, max_wf, chunk, None, seed=3)
+            ntr += 1
+            nchunks = sm0.ntasks
+        except HarnessError:
+            raise
+        except Exception as e:
+            seen.setdefault("file:exc:%s" % type(e).__name__, "%s ns=%d max_wf=%d chunk=%d: %s: %s" % (fam, ns, max_wf, chunk, type(e).__name__, e))
+            continue
         # every execution order of the chunk tasks (<= 120 orders), otherwise natural / reversed / rotations
         if nchunks <= 5:
             orders = list(itertools.permutations(range(nchunks)))
